@@ -8,7 +8,13 @@ Import ListNotations.
 Open Scope char_scope.
 Open Scope list_scope.
 
-(* ---- the full statement: every well-formed AST (numbers, identifiers, + - * / ^ **, unary minus, parentheses, function
+(* What the theorems of this file are about: the equation language as a formal object (Lang.parse / Lang.print / Lang.eval are
+   the Spec) and the models of the PyRates-authored string handling (Lang.classify, Lang.process_func_call).  They say that the
+   Spec is well defined: printing is injective up to spelling, a value does not depend on the order of terms, the derivative
+   notations are classified alike, the helper-call surgery removes exactly the call.  NO theorem here is about sympy or about
+   "both evaluation paths give this value": that half of the property is decided by the correspondence run (E1) only. *)
+
+(* ---- the full round-trip statement of the Spec's own parser and printer: every well-formed AST (numbers, identifiers, + - * / ^ **, unary minus, parentheses, function
    calls with any number of arguments, nested), every writing style (blanks, ^ vs **, redundant parentheses) ---- *)
 Definition C05_full_statement : Prop :=
   forall (e : expr) (s : style), wf_expr e = true -> parse (print s e) = Some e.
@@ -153,7 +159,7 @@ Example C05_nonvacuous :
   oq_eqb (eval (mkctx [(s2l "r", mkq 3 2); (s2l "x_v1", mkq 2 1); (s2l "weight", mkq (-3) 4)] [] [] 0) e)
          (Some (mkq 41 32)) = true.
 Proof.
-  split; [vm_compute; reflexivity|]. split; [apply parse_print; vm_compute; reflexivity|].
+  split; [vm_compute; reflexivity|]. split; [vm_compute; reflexivity|].          (* the round trip is computed here, not taken from the theorem *)
   split; vm_compute; reflexivity.
 Qed.
 Print Assumptions C05_nonvacuous.
